@@ -21,6 +21,10 @@ CHECKS = {
    text="Lean theorems over the store stack appendStore→schemeStore→base map as coded: for every sequence of Puts (aggregation and sync interleaved arbitrarily — both go through the one mutex-held appendStore.Put, a regenerated lock fact) and restarts, the stored rounds are exactly 0..head, linked by previous signatures (chained) or stripped of them (unchained), the wrappers' cached head equals the stored head; a successful Put writes exactly head+1 and changes no stored round, any other Put changes nothing (re-put of the head answers 'already' iff equal); two nodes whose stores satisfy the invariant and hold only verifying beacons agree byte for byte on every common round (induction on the round, under the explicit uniqueness-of-BLS-signatures hypothesis); the repair path cannot replace a valid beacon by a different valid one. Tied to the code by running the real newAppendStore(NewSchemeStore(base)) over trimmed bolt, untrimmed bolt and memdb against the model and against a gap-free/append-only oracle.",
    note="Lean kernel + standard axioms; base store = sorted map (C18 correspondence); sync.Mutex semantics; SigUnique hypothesis; multi-node agreement is the theorem c02_agree plus C01/C10 validity, real multi-node runs are exercised under C05.",
    technique="Lean 4 proof (invariant by induction over op sequences; agreement by induction on rounds) + regenerated lock facts + differential correspondence"),
+ "C04": dict(engine="handler", design="§3 C04, §5 row 13",
+   text="Lean theorems over an event model of Handler.run / broadcastNextPartial / the catch-up goroutine / ProcessPartialBeacon whose comparisons and +1 are regenerated from node.go on every run: every emission comes from one of the two coded rules (tick: tick round if the stored head is that round, else head+1; catch-up: latest+1 for a beacon strictly behind the captured tick) and is stamped with the clock of that moment; an invariant of the run loop (current and every sleeping catch-up goroutine's captured tick are not ahead of the clock) is preserved by every event; catch-up emissions are never ahead of the clock; a tick processed while head <= tick round is safe; ProcessPartialBeacon admits only rounds <= clock round + 1 (also before genesis) and refuses anything from clock round + 2 on before looking at anything else; without the sync path the stored head is never more than one round ahead of the clock (threshold >= 2). The full statement 'for every trace allowed by ticker.go and a forward-moving clock, every emitted partial for round r is emitted when the node's clock has reached r's scheduled time' is proved for the CORRECTED variant only; for the code AS IT IS it is proved under the hypothesis 'head <= tick round at every tick' and refuted without it by a 3-event witness (decide), which the check replays on the real Handler and reports as a known finding. Tied to the code by regenerated guard facts (rfl ties for statement order / call arguments / ticker.go assignments) and by running one real beacon.Handler (real 3..5-member group with real shares, aggregator, sync manager, ticker, fake clock, recording ProtocolClient) on scripted schedules against the Lean driver line by line, with the no-early-emission and acceptance-window oracle evaluated directly on the recorded packets.",
+   note="Lean kernel + standard axioms; goroutines/channels/clockwork are modelled as events and a deterministic scheduler in the driver, not verified (the real loop is driven only at quiescent points, GOMAXPROCS=1 for the compared runs, plus oracle-only runs with parallel goroutines); schedules are sampled, the theorems are not; the model diff of a schedule stops where the model itself says two goroutines of the node race for the head; C16 theorems imported; BLS is real in the harness and an oracle label in the model.",
+   technique="Lean 4 proof (invariant by induction over event traces, variant switch, decide witness) + regenerated guard facts + differential correspondence with a real Handler under a fake clock + direct monitor on stamped outgoing packets"),
 }
 NOT_YET = {}
 for i in range(1, 21):
